@@ -826,6 +826,10 @@ func TestVerifC07(t *testing.T) {
 		{},
 		{od("none", "no"), osop(0), edit(2)},
 		{od("none", "no"), osop(0), edit(2), od("none", "no"), osop(1), edit(1)},
+		// roll-back A -> B -> A after A's ObjectSet was archived (B took over) ...
+		{od("none", "no"), osop(0), edit(2), od("none", "no"), osop(1), plain("arch"), edit(1)},
+		// ... and roll-back whose clash was already resolved once (counter bumped, A' created): A -> B -> A -> B
+		{od("none", "no"), osop(0), edit(2), od("none", "no"), osop(1), edit(1), od("none", "no"), od("none", "no"), osop(2), edit(2)},
 	}
 	depth := r.Pick(3, 4)
 	var rec func(prefix []c07Op, d int, fl string)
@@ -843,6 +847,9 @@ func TestVerifC07(t *testing.T) {
 		if pi == 1 {
 			d = depth // the prefix after which the create-not-yet-visible window matters most
 		}
+		if pi >= 3 {
+			d = 2
+		}
 		rec(p, d, "ns")
 	}
 	rec(prefixes[1], 2, "cl")
@@ -855,6 +862,33 @@ func TestVerifC07(t *testing.T) {
 		}
 		l := 4 + r.Rng.Intn(r.Pick(28, 60))
 		nsets := 0
+		if r.Rng.Intn(3) == 0 {
+			// roll-back prelude: template A rolled out, edited to B, reverted to A - with A's ObjectSet
+			// archived in between or still live, B's ObjectSet with or without its revision number, the
+			// passes of the roll-out disturbed or not; the random history continues from there.
+			a := 1 + r.Rng.Intn(3)
+			b := 1 + (a+r.Rng.Intn(2))%3
+			s.Init = a
+			pass := func() c07Op {
+				o := od("none", "no")
+				if r.Rng.Intn(6) == 0 {
+					o = c07RandomOp(r.Rng, nsets)
+					for o.Op != "od" {
+						o = c07RandomOp(r.Rng, nsets)
+					}
+				}
+				return o
+			}
+			s.Ops = append(s.Ops, pass(), osop(0), edit(b), pass())
+			if r.Rng.Intn(8) > 0 {
+				s.Ops = append(s.Ops, osop(1))
+			}
+			if r.Rng.Intn(2) == 0 {
+				s.Ops = append(s.Ops, plain("arch"))
+			}
+			s.Ops = append(s.Ops, edit(a), pass())
+			nsets = 2
+		}
 		for j := 0; j < l; j++ {
 			op := c07RandomOp(r.Rng, nsets)
 			if op.Op == "od" || op.Op == "squat" {
